@@ -28,7 +28,9 @@ EXTRA_NUMERALS = ["12.5", "1e3", "-1.5e-2", ".5", "5.", "96", "25.4", "1e-7", "1
                   "9" * 17 + "." + "9" * 17, "1e+3", "2.5E+2", "1.e1", "+.5e+1", "1e-300", "1e300"]
 SPACES = [("", ""), (" ", ""), ("", " "), ("\t ", " \n"), ("", "")]
 REF = 250.0
-READER_REFS = (REF, 1, 0, 0.0, 1056.0)    # references handed to the attribute reader for %
+# references handed to the attribute reader for %: whatever the caller read from the document -
+# a float, an int, a zero, text, or another number type (the reader passes it through float())
+READER_REFS = (REF, 1, 0, 0.0, 1056.0, "800", " 8e2 ", Decimal("12.5"), F(7, 2), True)
 
 
 def _lib():
